@@ -45,6 +45,8 @@ pub enum St {
     Shares { k: usize, m: usize, split: usize, mask: u32, fault: Option<u8> },
     /// large splittings (t, n) = BIG[tn] with a named subset: 0 first t, 1 last t, 2 all, 3 first t - 1, 4 all + a duplicate
     SharesBig { k: usize, m: usize, tn: usize, named: u8 },
+    /// decryption shares of a 3-of-5 sharing in which participants 1 and 2 hold equal values (subset index)
+    SharesEqual { k: usize, m: usize, subset: usize },
     /// proof with one deviation
     Proof { k: usize, m: usize, dev: Option<PDev> },
 }
@@ -69,8 +71,10 @@ pub struct M14<C: Suite> {
 
 const NSUM: usize = 16;
 
+const EQ_SUBSETS: [&[u8]; 7] = [&[1, 2, 3], &[1, 2, 4], &[2, 1, 5], &[5, 2, 1], &[1, 2, 3, 4, 5], &[3, 4, 5], &[1, 3, 5]];
+
 /// thresholds beyond fixed buffer sizes and at the one byte identifier limit
-const BIG: [(usize, usize); 4] = [(65, 70), (200, 255), (255, 255), (2, 255)];
+const BIG: [(usize, usize); 10] = [(65, 70), (200, 255), (255, 255), (2, 255), (9, 10), (17, 20), (34, 40), (64, 64), (100, 128), (130, 199)];
 
 impl<C: Suite> M14<C> {
     pub fn new(_tier: Tier, seed: u64) -> Self {
@@ -133,6 +137,9 @@ impl<C: Suite> Model for M14<C> {
                 for j in i + 1..NSUM {
                     v.push(St::Pair { k, i, j });
                 }
+            }
+            for subset in 0..EQ_SUBSETS.len() {
+                v.push(St::SharesEqual { k, m: 3, subset });
             }
             if k == 0 {
                 for tn in 0..BIG.len() {
@@ -395,6 +402,18 @@ impl<C: Suite> Model for M14<C> {
                     }
                 }
             }
+            St::SharesEqual { k, m, subset } => {
+                let ct = self.enc(*k, *m);
+                let all = shares_with_equal_values::<C>(&self.sks[*k], 5);
+                let ds: Vec<ElGamalDecryptionShare<C>> =
+                    EQ_SUBSETS[*subset].iter().map(|i| ElGamalDecryptionShare(<C as BlsSignatureCore>::public_key_share_with_generator(&all[*i as usize - 1].0, ct.c1).unwrap())).collect();
+                let r = guard(|| ElGamalDecryptionKey::<C>::from_shares(&ds).map(|k| pt(&k.decrypt(&ct))));
+                o.calls(2);
+                let want = self.ref_point(&[*m]);
+                let ok = matches!(&r, Ok(Ok(x)) if *x == want);
+                o.outcome(if ok { "shares-qualified:m*H" } else { "shares-qualified:wrong" });
+                o.expect(&format!("C14:decryption-key-from-equal-valued-shares:{}", g), ok, "m times the generator", &format!("{:?}", r.map(|x| x.map(|_| "another point").map_err(|e| e.to_string()))));
+            }
             St::SharesBig { k, m, tn, named } => {
                 let (t, n) = BIG[*tn];
                 let ct = self.enc(*k, *m);
@@ -530,7 +549,7 @@ fn depth_of<C: Suite>(_m: &M14<C>, s: &St) -> usize {
         St::Cancel { .. } => 0,
         St::Pair { .. } => 0,
         St::Shares { mask, fault, .. } => mask.count_ones() as usize + fault.is_some() as usize,
-        St::SharesBig { .. } => 0,
+        St::SharesBig { .. } | St::SharesEqual { .. } => 0,
         St::Proof { dev, .. } => dev.is_some() as usize,
     }
 }
